@@ -112,11 +112,25 @@ static int nextGenericKeyIter(SetIteration* i)
 static int
 initSetIteration(SetIteration *i, PyObject *s, int useValues)
 {
+  int is_bucket, is_set = 0, is_btree = 0, is_treeset = 0;
+
   i->set = NULL;
   i->position = -1;     /* set to 0 only on normal return */
   i->usesValue = 0;     /* assume it's a set or that values aren't iterated */
 
-  if (PyObject_IsInstance(s, (PyObject *)&BucketType))
+  /* PyObject_IsInstance() can fail (-1, e.g. out of memory while looking
+     up __class__): that must not be taken for "yes". */
+  is_bucket = PyObject_IsInstance(s, (PyObject *)&BucketType);
+  if (is_bucket == 0)
+    is_set = PyObject_IsInstance(s, (PyObject *)&SetType);
+  if (is_bucket == 0 && is_set == 0)
+    is_btree = PyObject_IsInstance(s, (PyObject *)&BTreeType);
+  if (is_bucket == 0 && is_set == 0 && is_btree == 0)
+    is_treeset = PyObject_IsInstance(s, (PyObject *)&TreeSetType);
+  if (is_bucket < 0 || is_set < 0 || is_btree < 0 || is_treeset < 0)
+    return -1;
+
+  if (is_bucket)
     {
       i->set = s;
       Py_INCREF(s);
@@ -129,13 +143,13 @@ initSetIteration(SetIteration *i, PyObject *s, int useValues)
       else
         i->next = nextSet;
     }
-  else if (PyObject_IsInstance(s, (PyObject *)&SetType))
+  else if (is_set)
     {
       i->set = s;
       Py_INCREF(s);
       i->next = nextSet;
     }
-  else if (PyObject_IsInstance(s, (PyObject *)&BTreeType))
+  else if (is_btree)
     {
       i->set = BTree_rangeSearch(BTREE(s), NULL, NULL, 'i');
       UNLESS(i->set) return -1;
@@ -148,7 +162,7 @@ initSetIteration(SetIteration *i, PyObject *s, int useValues)
       else
         i->next = nextTreeSetItems;
     }
-  else if (PyObject_IsInstance(s, (PyObject *)&TreeSetType))
+  else if (is_treeset)
     {
       i->set = BTree_rangeSearch(BTREE(s), NULL, NULL, 'k');
       UNLESS(i->set) return -1;
